@@ -125,6 +125,9 @@ type Scenario struct {
 	// StallAt: thread id -> ordinal (1-based) of the scheduling point at which that thread stalls forever
 	// (a stuck or dead lock holder: it keeps whatever it holds and never runs again).
 	StallAt map[int]int
+	// IO, when set, observes every file operation of sop's filesystem backend at the moment it executes (after
+	// its scheduling point): op and path as in vhook.IO. It cannot fail the operation.
+	IO func(x *Execution, op, path string)
 }
 
 type ThreadSpec struct {
@@ -182,6 +185,12 @@ func Run(sc *Scenario, prefix []int) *Execution {
 		x.yield <- t
 		<-t.resume
 		return true
+	}
+	if sc.IO != nil {
+		hooks.IO = func(op, path string, data []byte, off int64) error {
+			sc.IO(x, op, path)
+			return nil
+		}
 	}
 	vhook.Install(hooks)
 	defer vhook.Uninstall()
